@@ -31,11 +31,49 @@ func always(g *G) bool     { return true }
 func deletedTracked(g *G) []string {
 	var xs []string
 	for _, p := range g.E.Cur.Tracked() {
-		if _, ok := g.E.Cur.Work.Files[p]; !ok {
+		if _, ok := g.E.Cur.Work.Files[p]; !ok && !g.E.Cur.Work.Dirs[p] && !underFile(g.E.Cur, p) {
 			xs = append(xs, p)
 		}
 	}
 	return xs
+}
+
+// underFile: some directory prefix of p is a regular file in the working tree.
+func underFile(o *Obs, p string) bool {
+	for i := 0; i < len(p); i++ {
+		if p[i] == '/' {
+			if _, ok := o.Work.Files[p[:i]]; ok {
+				return true
+			}
+		}
+	}
+	return false
+}
+
+// decorate renders a clean relative path in a non-canonical but equivalent spelling.
+func (g *G) decorate(p string) string {
+	if !g.E.decorateArgs || !g.Chance(25, "decorate") {
+		return p
+	}
+	switch g.Int(0, 3, "spelling") {
+	case 0:
+		return "./" + p
+	case 1:
+		if i := strings.Index(p, "/"); i > 0 {
+			return p[:i] + "//" + p[i+1:]
+		}
+		return "./" + p
+	case 2:
+		if i := strings.Index(p, "/"); i > 0 {
+			return p[:i] + "/./" + p[i+1:]
+		}
+		return "./" + p
+	default:
+		if i := strings.LastIndex(p, "/"); i > 0 {
+			return p[:i] + "/../" + p[strings.LastIndex(p[:i], "/")+1:]
+		}
+		return "./" + p
+	}
 }
 
 // reflogLen is the number of entries `goit reflog` would list (an estimate from
@@ -55,6 +93,9 @@ var ops = []opGen{
 	{"remove-file", hasFiles, func(g *G) Step { return Step{Op: "remove", Path: g.Pick(g.WorkFiles(), "file")} }},
 	{"recreate", func(g *G) bool { return len(deletedTracked(g)) > 0 }, func(g *G) Step {
 		return Step{Op: "write", Path: g.Pick(deletedTracked(g), "deleted"), Data: g.contentFor()}
+	}},
+	{"file2dir", func(g *G) bool { return len(trackedFilesOnDisk(g)) > 0 }, func(g *G) Step {
+		return Step{Op: "file2dir", Path: g.Pick(trackedFilesOnDisk(g), "trackedFile"), Args: []string{g.DirComponent()}, Data: g.SmallContent()}
 	}},
 	{"rmdir", func(g *G) bool { return len(g.WorkDirs()) > 0 }, func(g *G) Step {
 		return Step{Op: "rmdir", Path: g.Pick(g.WorkDirs(), "dir")}
@@ -183,7 +224,7 @@ func genAdd(g *G) Step {
 			break
 		}
 		c := cands[g.Weighted(ws, "argClass")]
-		args = append(args, g.Pick(c, "arg"))
+		args = append(args, g.decorate(g.Pick(c, "arg")))
 	}
 	if len(args) == 0 {
 		return Step{Op: "goit", Args: []string{"add"}, Note: "invalid"}
@@ -199,11 +240,11 @@ func genRm(g *G) Step {
 	for i := 0; i < n; i++ {
 		switch {
 		case len(tdirs) > 0 && g.Chance(35, "dir"):
-			args = append(args, g.Pick(tdirs, "tdir"))
+			args = append(args, g.decorate(g.Pick(tdirs, "tdir")))
 		case len(args) > 0 && g.Chance(10, "repeat"):
 			args = append(args, args[0])
 		default:
-			args = append(args, g.Pick(tracked, "tracked"))
+			args = append(args, g.decorate(g.Pick(tracked, "tracked")))
 		}
 	}
 	return goit(append([]string{"rm"}, args...)...)
@@ -237,9 +278,9 @@ func genRestore(g *G, staged bool) Step {
 	n := g.Int(1, 2, "nargs")
 	for i := 0; i < n; i++ {
 		if len(dirs) > 0 && g.Chance(40, "dir") {
-			args = append(args, g.Pick(dirs, "dir"))
+			args = append(args, g.decorate(g.Pick(dirs, "dir")))
 		} else {
-			args = append(args, g.Pick(cands, "path"))
+			args = append(args, g.decorate(g.Pick(cands, "path")))
 		}
 	}
 	return goit(args...)
@@ -330,7 +371,18 @@ func prelude(g *G) []Step {
 	return st
 }
 
+func trackedFilesOnDisk(g *G) []string {
+	var xs []string
+	for _, p := range g.E.Cur.Tracked() {
+		if _, ok := g.E.Cur.Work.Files[p]; ok {
+			xs = append(xs, p)
+		}
+	}
+	return xs
+}
+
 type runOpts struct {
+	decorate bool
 	weights     Weights
 	hostileMsgs bool
 	fullContent bool
@@ -343,7 +395,7 @@ func runProfile(t *testing.T, p *Profile, o runOpts) {
 	rapid.Check(t, func(rt *rapid.T) {
 		e := NewExec(p)
 		defer e.Close()
-		e.hostileMsgs, e.fullContent = o.hostileMsgs, o.fullContent
+		e.hostileMsgs, e.fullContent, e.decorateArgs = o.hostileMsgs, o.fullContent, o.decorate
 		g := &G{T: rt, E: e}
 		stats.Eval()
 		do := func(st Step) {
